@@ -197,51 +197,111 @@ def _no_visited_cut(ctx) -> list[Inst]:
 
 
 def _no_self_read_fold(ctx) -> list[Inst]:
-    """T3/T4 side condition - the table language reads `x.f = c ; for p in x.parents: x.f = x.f op p.f` as
-    `x.f = any/all(p.f for p in x.parents)`.  That reading is only right when x is not among its own parents: a
-    step that leads to itself (`| a -> a`) is, and then the loop reads the label it has just reset instead of the
-    label the node carried - the self-supporting labelling, which the greatest fixed point contains, is lost.
-    The accumulation must therefore go through a value that is not the label itself (any()/all(), a local)."""
+    """T3/T4 side condition - the table language reads `x.f = c ; for p in x.parents: x.f = x.f op p.f` (and
+    `x.f = c ; x.f = any(p.f for p in x.parents)`) as `x.f = any/all(p.f for p in x.parents)` computed from the labels
+    the parents carried BEFORE.  That reading is only right when x is not among its own parents: a step that leads to
+    itself (`| a -> a`) is, and then the parents are read after x.f has been overwritten - the self-supporting
+    labelling, which the greatest fixed point contains, is lost.  Rule: no write to <owner>.f may reach (inside one
+    iteration over the children) a read of <v>.f where v ranges over <owner>.parents."""
     from ..core import own_nodes, stmt_text
     prog = ctx.prog
     insts = []
     for fname in ('propagate_viability_from_node', 'propagate_necessity_from_node'):
-        f = prog.func(fname)
-        rel = f.module.relpath
+        f0 = prog.func(fname)
+        funcs = [f0] + [g for g in ctx.an.reachable([f0]).values() if g is not f0 and g.module is f0.module
+                        and g.name not in ('propagate_viability_from_node', 'propagate_necessity_from_node',
+                                           'evaluate_viability', 'evaluate_necessity')]
         bad = None
-        nloops = 0
-        for n in own_nodes(f.node):
-            if not isinstance(n, ast.For) or not isinstance(n.target, ast.Name):
-                continue
-            it = n.iter
-            if not (isinstance(it, ast.Attribute) and it.attr in ('parents', 'children')):
-                continue
-            owner = stmt_text(it.value)
-            lv = n.target.id
-            for st in ast.walk(n):
-                tg = None
-                if isinstance(st, ast.Assign) and len(st.targets) == 1:
-                    tg, val = st.targets[0], st.value
-                elif isinstance(st, ast.AugAssign):
-                    tg, val = st.target, st.value
-                if not (isinstance(tg, ast.Attribute) and stmt_text(tg.value) == owner):
+        nreads = 0
+        for f in funcs:
+            cfg = ctx.cfg(f)
+            # reads: <v>.<attr> with v bound by a for / comprehension over <owner>.parents
+            reads = []
+            for n in ast.walk(f.node):
+                gens = []
+                if isinstance(n, ast.For) and isinstance(n.target, ast.Name):
+                    gens.append((n.target.id, n.iter, n.body))
+                if isinstance(n, (ast.GeneratorExp, ast.ListComp, ast.SetComp)):
+                    for g in n.generators:
+                        if isinstance(g.target, ast.Name):
+                            gens.append((g.target.id, g.iter, [n.elt] + list(g.ifs)))
+                for v, it, scope in gens:
+                    if not (isinstance(it, ast.Attribute) and it.attr == 'parents'):
+                        continue
+                    owner = stmt_text(it.value)
+                    for sc in scope:
+                        for r in ast.walk(sc):
+                            if isinstance(r, ast.Attribute) and isinstance(r.ctx, ast.Load) \
+                                    and isinstance(r.value, ast.Name) and r.value.id == v \
+                                    and r.attr in ('is_viable', 'is_necessary'):
+                                reads.append((owner, r, cfg.owner(r)))
+            nreads += len(reads)
+            pm = {}
+            for x in ast.walk(f.node):
+                for ch in ast.iter_child_nodes(x):
+                    pm[id(ch)] = x
+
+            def guards(node):
+                """{subject text: set of constants it must equal} from the enclosing `if X == c` / `case c` arms"""
+                out = {}
+                cur = node
+                while id(cur) in pm:
+                    par = pm[id(cur)]
+                    if isinstance(par, ast.If) and any(cur is b for b in par.body):
+                        t = par.test
+                        if isinstance(t, ast.Compare) and len(t.ops) == 1 and isinstance(t.ops[0], ast.Eq) \
+                                and isinstance(t.comparators[0], ast.Constant):
+                            out.setdefault(stmt_text(t.left), set()).add(t.comparators[0].value)
+                        elif isinstance(t, ast.Compare) and len(t.ops) == 1 and isinstance(t.ops[0], ast.In) \
+                                and isinstance(t.comparators[0], (ast.Tuple, ast.List, ast.Set)) \
+                                and all(isinstance(e_, ast.Constant) for e_ in t.comparators[0].elts):
+                            out.setdefault(stmt_text(t.left), set()).update(e_.value for e_ in t.comparators[0].elts)
+                    if isinstance(par, ast.match_case) and id(par) in pm and isinstance(pm[id(par)], ast.Match):
+                        vals = {v_.value.value for v_ in ast.walk(par.pattern)
+                                if isinstance(v_, ast.MatchValue) and isinstance(v_.value, ast.Constant)}
+                        if vals:
+                            out.setdefault(stmt_text(pm[id(par)].subject), set()).update(vals)
+                    cur = par
+                return out
+
+            def exclusive(a, b) -> bool:
+                ga, gb = guards(a), guards(b)
+                return any(k in gb and not (ga[k] & gb[k]) for k in ga)
+            # the header of the enclosing loop over the children (one iteration = one child)
+            headers = {g.idx for g in cfg.nodes if g.kind == 'for'
+                       and isinstance(g.ast.iter, ast.Attribute) and g.ast.iter.attr == 'children'}
+            for owner, r, rnode in reads:
+                if rnode is None:
                     continue
-                nloops += 1
-                for r in ast.walk(val):
-                    if isinstance(r, ast.Attribute) and r.attr == tg.attr and isinstance(r.value, ast.Name) \
-                            and r.value.id == lv:
-                        bad = (st, tg, r, it)
-        construct = f'{fname}: a label is not accumulated in place while the parents (possibly the node itself) are read'
+                for w in cfg.nodes:
+                    if w.kind != 'stmt' or not isinstance(w.ast, (ast.Assign, ast.AugAssign)):
+                        continue
+                    tg = w.ast.targets[0] if isinstance(w.ast, ast.Assign) else w.ast.target
+                    if not (isinstance(tg, ast.Attribute) and tg.attr == r.attr and stmt_text(tg.value) == owner):
+                        continue
+                    if w is rnode:
+                        # `x.f = any(p.f ...)`: the right-hand side is evaluated before the store - unless the store
+                        # sits in the loop that does the reading (x.f = x.f or p.f)
+                        inside = any(isinstance(lp, ast.For) and any(x is w.ast for x in ast.walk(lp))
+                                     and isinstance(lp.iter, ast.Attribute) and lp.iter.attr == 'parents'
+                                     for lp in ast.walk(f.node))
+                        if inside:
+                            bad = (f, w.ast, tg, r)
+                        continue
+                    if rnode.idx in cfg.reachable_from(w, avoiding=headers) and not exclusive(w.ast, r):
+                        bad = (f, w.ast, tg, r)
+        construct = f'{fname}: the parents are read before the label of the step itself is overwritten'
+        rel = f0.module.relpath
         if bad:
-            st, tg, r, it = bad
+            f, st, tg, r = bad
             insts.append(Inst(
                 RULE, fname, construct, 'violation',
-                msg=(f"'{stmt_text(st, 90)}' updates {stmt_text(tg)} inside the loop over {stmt_text(it)} that reads "
-                     f"{stmt_text(r)}: for a step that is its own parent (`| a -> a`) the loop reads the label it has "
-                     f"just overwritten, so a self-supporting step is lowered although the labelling that keeps it "
-                     f"satisfies every equation - the result is not the greatest fixed point"),
-                file=rel, line=st.lineno, props=('C08',)))
+                msg=(f"'{stmt_text(st, 90)}' ({f.short}) writes {stmt_text(tg)} before / while {stmt_text(r)} is read for "
+                     f"the parents of the same step: for a step that is its own parent (`| a -> a`) the label just "
+                     f"overwritten is read back, so a self-supporting step is lowered although the labelling that keeps "
+                     f"it satisfies every equation - the result is not the greatest fixed point"),
+                file=f.module.relpath, line=st.lineno, props=('C08',)))
         else:
-            insts.append(Inst(RULE, fname, construct, 'ok', file=rel, line=f.node.lineno, props=('C08',),
-                              nontrivial=True))
+            insts.append(Inst(RULE, fname, construct, 'ok', file=rel, line=f0.node.lineno, props=('C08',),
+                              nontrivial=bool(nreads)))
     return insts
